@@ -520,6 +520,16 @@ pub fn c06_finalise(prop: &'static str, case: &ProgCase, ex: &ProgExec, lm: &Log
         out.push(v(prop, "write-after-finish", "sink", format!("sink write call {} during op {} after the successful finish at op {}", e.call, e.op, fi)));
         return out;
     }
+    // "a successful finish writes the complete file once": nothing may have reached the sink in an earlier attempt
+    if let Some(e) = ex.sink.events.iter().find(|e| (e.op as usize) < fi && matches!(e.outcome, Outcome::Accepted(n) if n > 0)) {
+        out.push(v(
+            prop,
+            "file-written-more-than-once",
+            "finish-after-failed-finish",
+            format!("finish at op {} succeeded although the finish attempt at op {} had already delivered {} bytes to the sink: the sink now holds a partial file followed by a complete one", fi, e.op, e.len),
+        ));
+        return out;
+    }
     // exactly one finish attempt wrote: all events belong to op fi (earlier failed attempts only under faults)
     if case.faults.is_empty() {
         if let Some(e) = ex.sink.events.iter().find(|e| e.op as usize != fi) {
